@@ -44,6 +44,14 @@ def int_width_doc_fields():
             pts.append(PType(f"{n}_T", "Integer", IntEnc(w, enc)))
             prs.append(Param(n, f"{n}_T"))
             ents.append(("p", n))
+    # the other integer encodings XTCE names: whatever values the decoder yields for them (it reads them as two's complement), the dataset
+    # must hold exactly those values
+    for w in (8, 16):
+        for enc in ("onesComplement", "signMagnitude", "BCD", "packedBCD"):
+            n = f"{enc[:2].upper()}{enc[-1].upper()}{w}"
+            pts.append(PType(f"{n}_T", "Integer", IntEnc(w, enc)))
+            prs.append(Param(n, f"{n}_T"))
+            ents.append(("p", n))
     return pts, prs, ents
 
 
